@@ -11,7 +11,7 @@ import (
 
 func init() {
 	register(&propCheck{id: "C07", needRoot: true, run: checkC07,
-		explanation: "Decided statically: (1) FLOW — in the index build the version the index is labelled with and the version of the tree it is built from must be the same value (or tied by a dominating equality test); today they are two different variables: KNOWN FINDING (stale indexed reads after opening an older version once); (2) DOM — a value taken from the index is returned only under `last-updated version <= queried version`, and absence only under `queried version == latest`; (3) OWN/ORDER — the in-memory index cache is filled only by the read-through lookup and by Commit after the physical write succeeded, and the index key-space formatter is used only by the index reader/writers; (4) PASS — rollback-by-overwrite, import and every load reach the rebuild decision when the index is enabled; every path that installs a new working root records the overlay entry; a completed commit clears the overlay. NOT decided: equality of indexed and tree-walk answers (value-level), correctness of the two-cursor merge."})
+		explanation: "Decided statically: (1) FLOW — in the index build the version the index is labelled with and the version of the tree it is built from must be the same value (or tied by a dominating equality test); today they are two different variables: KNOWN FINDING (stale indexed reads after opening an older version once); (2) DOM — a value taken from the index is returned only under `last-updated version <= queried version`, and absence only under `queried version == latest`; (3) OWN/ORDER — the in-memory index cache is filled only by the read-through lookup and by Commit after the physical write succeeded, and the index key-space formatter is used only by the index reader/writers; (4) PASS — rollback-by-overwrite, import and every load reach the rebuild decision when the index is enabled; every path that installs a new working root records the overlay entry; a completed commit clears the overlay; (5) ERR — the walk that deletes a stale index and the walk that rebuilds it consult the iterator's Error() (not a Close() that overwrites the sticky error) before success: otherwise a storage fault leaves stale entries under a label that says 'complete'. NOT decided: equality of indexed and tree-walk answers (value-level), correctness of the two-cursor merge."})
 }
 
 // fastDisabledEdge: the CFG edge on which the fast index is switched off.
@@ -69,62 +69,29 @@ func checkC07(c *Ctx) {
 	}
 
 	// ---- (2)
+	checkVersionGuard(c)
 	getFast := l.Func("", "*nodeDB.GetFastNode")
-	getVal := l.Func("fastnode", "*Node.GetValue")
-	getVer := l.Func("fastnode", "*Node.GetVersionLastUpdatedAt")
-	cachedLatest := l.Func("", "*nodeDB.getCachedLatestVersion")
-	if getFast == nil || getVal == nil || getVer == nil || cachedLatest == nil {
-		c.anchorMissing("DOM-version-guard", "GetFastNode / fastnode getters / getCachedLatestVersion")
-	} else {
-		for _, name := range []string{"*ImmutableTree.Get", "*MutableTree.GetVersioned"} {
-			fn := l.Func("", name)
-			if fn == nil {
-				c.anchorMissing("DOM-version-guard", name)
-				continue
-			}
-			isFast := isResultOf(predStatic(getFast), 0)
-			isVersion := func(v ssa.Value) bool {
-				return isLoadOfField(fVersion)(v) || isParam(fn, "version")(v)
-			}
-			isVerOfFast := func(v ssa.Value) bool {
-				call, ok := v.(*ssa.Call)
-				return ok && predStatic(getVer)(&call.Call) && isFast(stripTrivial(call.Call.Args[0]))
-			}
-			leG := findGuards(fn, cmpMatcher(token.LEQ, isVerOfFast, isVersion, false))
-			eqG := findGuards(fn, cmpMatcher(token.EQL, isVersion, isResultOf(predStatic(cachedLatest), -1), false))
-			nHit, nAbs := 0, 0
-			for _, r := range returnsOf(fn) {
-				val := stripTrivial(retVal(r, 0))
-				if call, ok := val.(*ssa.Call); ok && predStatic(getVal)(&call.Call) && isFast(stripTrivial(call.Call.Args[0])) {
-					nHit++
-					c.decide("DOM-version-guard", l.fname(fn)+" returns indexed value", l.ipos(r), guardsEffect(leG, r),
-						"dominated by `lastUpdatedAt <= version`", "a value from the index is returned without the `last updated <= queried version` test: a newer value is served for an older version")
-					continue
-				}
-				if !isNilConst(val) || errNilness(retVal(r, 1), r.Block(), 0) >= 0 {
-					continue
-				}
-				// absence: fast node known nil here?
-				var fastV ssa.Value
-				allInstrs(fn, func(in ssa.Instruction) {
-					if e, ok := in.(*ssa.Extract); ok && isFast(e) {
-						fastV = e
-					}
-				})
-				if fastV == nil || nilFactAt(fastV, r.Block()) >= 0 {
-					continue
-				}
-				nAbs++
-				c.decide("DOM-version-guard", l.fname(fn)+" reports absence from the index", l.ipos(r), guardsEffect(eqG, r),
-					"dominated by `version == latest`", "absence is concluded from a missing index entry without the `version == latest` test")
-			}
-			if nHit == 0 || nAbs == 0 {
-				c.anchorMissing("DOM-version-guard", l.fname(fn)+": indexed-hit or indexed-absence return not found")
-			}
-		}
-	}
 
 	checkIndexReadTable(c)
+	// indexed iteration: persisted index merged with the uncommitted overlay
+	checkMergeOrder(c)
+
+	// ---- (2b) the walks that drop a stale index and rebuild it cannot end early unnoticed
+	c.rule("ERR-E3-index", "index purge / rebuild walks consult the iterator's error before reporting success", 2)
+	{
+		ea := newErrAnalysis(c, l)
+		fns := []*ssa.Function{l.Func("", "*MutableTree.enableFastStorageAndCommitIfNotEnabled"), l.Func("", "*MutableTree.enableFastStorageAndCommit")}
+		ea.runE3("ERR-E3-index", func(fn *ssa.Function) bool {
+			for f := fn; f != nil; f = f.Parent() {
+				for _, g := range fns {
+					if g != nil && f == g {
+						return true
+					}
+				}
+			}
+			return false
+		})
+	}
 
 	// ---- (3)
 	fCache := l.Field("", "nodeDB", "fastNodeCache")
@@ -199,55 +166,8 @@ func checkC07(c *Ctx) {
 	}
 
 	// ---- (4)
-	enable := l.Func("", "*MutableTree.enableFastStorageAndCommitIfNotEnabled")
-	lvo := l.Func("", "*MutableTree.LoadVersionForOverwriting")
-	lv := l.Func("", "*MutableTree.LoadVersion")
-	impCommit := l.Func("", "*Importer.Commit")
-	if enable == nil || lvo == nil || lv == nil || impCommit == nil {
-		c.anchorMissing("PASS-index-maintenance", "enableFastStorageAndCommitIfNotEnabled / LoadVersionForOverwriting / LoadVersion / Importer.Commit")
-	} else {
-		isEnable := func(in ssa.Instruction) bool { cc := callCommon(in); return cc != nil && predStatic(enable)(cc) }
-		for _, fn := range []*ssa.Function{lvo, lv} {
-			q := mustStateE(fn, false, isEnable, nil, fastDisabledEdge)
-			ok := true
-			var bad *ssa.Return
-			for _, r := range successReturns(fn) {
-				if !q(r) {
-					ok, bad = false, r
-				}
-			}
-			pos := l.pos(fn.Pos())
-			if bad != nil {
-				pos = l.ipos(bad)
-			}
-			c.decide("PASS-index-maintenance", l.fname(fn)+" reaches the rebuild decision", pos, ok, "every success return passes enableFastStorageAndCommitIfNotEnabled or the index-disabled edge", "a success return is reachable with the index enabled and without the rebuild decision: a stale index stays in use")
-		}
-		q := mustState(impCommit, false, func(in ssa.Instruction) bool { cc := callCommon(in); return cc != nil && predStatic(lv)(cc) }, nil)
-		ok := true
-		for _, r := range successReturns(impCommit) {
-			ok = ok && q(r)
-		}
-		c.decide("PASS-index-maintenance", "Importer.Commit loads the imported version (rebuild decision)", l.pos(impCommit.Pos()), ok, "passes LoadVersion", "import can succeed without LoadVersion: the index is never built for the imported tree")
-	}
-	// index build: the label that declares the index complete is queued after every fast node
-	if efc2, lab := l.Func("", "*MutableTree.enableFastStorageAndCommit"), l.Func("", "*nodeDB.SetFastStorageVersionToBatch"); efc2 == nil || lab == nil {
-		c.anchorMissing("PASS-index-maintenance", "enableFastStorageAndCommit / SetFastStorageVersionToBatch")
-	} else {
-		mutR := batchMutationReach(l)
-		commitP := predStatic(l.Func("", "*nodeDB.Commit"))
-		for _, in := range callsIn(efc2, predStatic(lab)) {
-			later := reachableAfter(in, func(x ssa.Instruction) bool {
-				cc := callCommon(x)
-				return cc != nil && !commitP(cc) && mutR.Instr(x)
-			}, func(x ssa.Instruction) bool { cc := callCommon(x); return cc != nil && commitP(cc) })
-			msg := ""
-			if len(later) > 0 {
-				msg = "after the index label was queued, " + l.calleeName(later[0]) + " at " + l.ipos(later[0]) + " queues more index entries: a flush in between persists a label that declares a partial index complete, and no later open rebuilds it"
-			}
-			c.decide("PASS-index-maintenance", "index build: label queued after every fast node", l.ipos(in), len(later) == 0, "the label is the last batch mutation before Commit", msg)
-		}
-	}
-
+	checkRebuildDecision(c, "PASS-index-maintenance")
+	checkIndexLabelLast(c, "PASS-index-maintenance")
 	// overlay recording
 	set := l.Func("", "*MutableTree.set")
 	rsl := l.Func("", "*MutableTree.recursiveSetLeaf")
@@ -551,5 +471,110 @@ func checkIndexReadTable(c *Ctx) {
 				}
 			}
 		}
+	}
+}
+
+// checkVersionGuard (shared by C07 and C05): every answer taken from the fast
+// index is dominated by a version guard.  For C05 this is what keeps index
+// entries written by an interrupted commit invisible after the reopen at the
+// previous version.
+func checkVersionGuard(c *Ctx) {
+	l := c.L
+	c.rule("DOM-version-guard", "indexed answers only under a version guard", 4)
+	fVersion := l.Field("", "ImmutableTree", "version")
+	if fVersion == nil {
+		c.anchorMissing("DOM-version-guard", "ImmutableTree.version")
+		return
+	}
+	getFast := l.Func("", "*nodeDB.GetFastNode")
+	getVal := l.Func("fastnode", "*Node.GetValue")
+	getVer := l.Func("fastnode", "*Node.GetVersionLastUpdatedAt")
+	cachedLatest := l.Func("", "*nodeDB.getCachedLatestVersion")
+	if getFast == nil || getVal == nil || getVer == nil || cachedLatest == nil {
+		c.anchorMissing("DOM-version-guard", "GetFastNode / fastnode getters / getCachedLatestVersion")
+	} else {
+		for _, name := range []string{"*ImmutableTree.Get", "*MutableTree.GetVersioned"} {
+			fn := l.Func("", name)
+			if fn == nil {
+				c.anchorMissing("DOM-version-guard", name)
+				continue
+			}
+			isFast := isResultOf(predStatic(getFast), 0)
+			isVersion := func(v ssa.Value) bool {
+				return isLoadOfField(fVersion)(v) || isParam(fn, "version")(v)
+			}
+			isVerOfFast := func(v ssa.Value) bool {
+				call, ok := v.(*ssa.Call)
+				return ok && predStatic(getVer)(&call.Call) && isFast(stripTrivial(call.Call.Args[0]))
+			}
+			leG := findGuards(fn, cmpMatcher(token.LEQ, isVerOfFast, isVersion, false))
+			eqG := findGuards(fn, cmpMatcher(token.EQL, isVersion, isResultOf(predStatic(cachedLatest), -1), false))
+			nHit, nAbs := 0, 0
+			for _, r := range returnsOf(fn) {
+				val := stripTrivial(retVal(r, 0))
+				if call, ok := val.(*ssa.Call); ok && predStatic(getVal)(&call.Call) && isFast(stripTrivial(call.Call.Args[0])) {
+					nHit++
+					c.decide("DOM-version-guard", l.fname(fn)+" returns indexed value", l.ipos(r), guardsEffect(leG, r),
+						"dominated by `lastUpdatedAt <= version`", "a value from the index is returned without the `last updated <= queried version` test: a newer value is served for an older version")
+					continue
+				}
+				if !isNilConst(val) || errNilness(retVal(r, 1), r.Block(), 0) >= 0 {
+					continue
+				}
+				// absence: fast node known nil here?
+				var fastV ssa.Value
+				allInstrs(fn, func(in ssa.Instruction) {
+					if e, ok := in.(*ssa.Extract); ok && isFast(e) {
+						fastV = e
+					}
+				})
+				if fastV == nil || nilFactAt(fastV, r.Block()) >= 0 {
+					continue
+				}
+				nAbs++
+				c.decide("DOM-version-guard", l.fname(fn)+" reports absence from the index", l.ipos(r), guardsEffect(eqG, r),
+					"dominated by `version == latest`", "absence is concluded from a missing index entry without the `version == latest` test")
+			}
+			if nHit == 0 || nAbs == 0 {
+				c.anchorMissing("DOM-version-guard", l.fname(fn)+": indexed-hit or indexed-absence return not found")
+			}
+		}
+	}
+
+}
+
+// checkRebuildDecision (shared by C07, C12, C09): rollback-by-overwrite,
+// every load and the import reach the index rebuild decision.
+func checkRebuildDecision(c *Ctx, rule string) {
+	l := c.L
+	enable := l.Func("", "*MutableTree.enableFastStorageAndCommitIfNotEnabled")
+	lvo := l.Func("", "*MutableTree.LoadVersionForOverwriting")
+	lv := l.Func("", "*MutableTree.LoadVersion")
+	impCommit := l.Func("", "*Importer.Commit")
+	if enable == nil || lvo == nil || lv == nil || impCommit == nil {
+		c.anchorMissing(rule, "enableFastStorageAndCommitIfNotEnabled / LoadVersionForOverwriting / LoadVersion / Importer.Commit")
+	} else {
+		isEnable := func(in ssa.Instruction) bool { cc := callCommon(in); return cc != nil && predStatic(enable)(cc) }
+		for _, fn := range []*ssa.Function{lvo, lv} {
+			q := mustStateE(fn, false, isEnable, nil, fastDisabledEdge)
+			ok := true
+			var bad *ssa.Return
+			for _, r := range successReturns(fn) {
+				if !q(r) {
+					ok, bad = false, r
+				}
+			}
+			pos := l.pos(fn.Pos())
+			if bad != nil {
+				pos = l.ipos(bad)
+			}
+			c.decide(rule, l.fname(fn)+" reaches the rebuild decision", pos, ok, "every success return passes enableFastStorageAndCommitIfNotEnabled or the index-disabled edge", "a success return is reachable with the index enabled and without the rebuild decision: a stale index stays in use")
+		}
+		q := mustState(impCommit, false, func(in ssa.Instruction) bool { cc := callCommon(in); return cc != nil && predStatic(lv)(cc) }, nil)
+		ok := true
+		for _, r := range successReturns(impCommit) {
+			ok = ok && q(r)
+		}
+		c.decide(rule, "Importer.Commit loads the imported version (rebuild decision)", l.pos(impCommit.Pos()), ok, "passes LoadVersion", "import can succeed without LoadVersion: the index is never built for the imported tree")
 	}
 }
